@@ -12,6 +12,7 @@
    true = the pinned tree (unassign every occurrence merged across stacks, then assign: D14, D20).
    [step] = [step_gen false]. *)
 From Eupsv Require Import Base.Base Base.BaseLemmas Model.Db Proofs.DbLib Proofs.Db Proofs.DbSim Proofs.DbInv Proofs.DbCor.
+From Eupsv Require Import Model.DbExt Proofs.DbExt.
 
 (* ---------------------------------------------------------------- refinement *)
 
@@ -441,3 +442,184 @@ Proof.
   split; [vm_compute; reflexivity|]. split; [vm_compute; reflexivity|].
   apply run_no_dangling. apply no_dangling_empty.
 Qed.
+
+(* ================================================================ the extended declaration
+   Model/DbExt.v: table files with text (compared by content), tablefile none, tables handed over
+   as a stream and external files (copied below ups_db/<flavor>/<product>/<version>), the choice of
+   the target stack (-Z, home stack of the product directory, read-only stacks).  [xdb] = records
+   and copies, [xstep e x o] one command under the environment e (read-only stacks, texts of the
+   files outside the databases), [xrun] a history.  Every other command is that of Db.v. *)
+
+(* one command of the extended model: the records afterwards show what the abstract transition
+   yields, the copies are the same map, and it raises exactly when the specification does *)
+Theorem ext_refinement_step e x o :
+  (forall x', xstep e x o = Ok x' ->
+     exists y', xastep e (xview x) o = Ok y' /\ aeq (view (xd x')) (xa y') /\ xfiles x' = xafiles y') /\
+  (forall k, xstep e x o = Err k <-> xastep e (xview x) o = Err k).
+Proof. split; [apply xstep_refines|intro k; apply xstep_err_iff]. Qed.
+Print Assumptions ext_refinement_step.
+
+(* the invariant over every extended history from the empty database *)
+Theorem ext_no_dangling_tag e path os :
+  let d := xd (xrun e (xempty path) os) in
+  forall s n t f v, db_tag d s n t f = Some v -> db_decl d s n v f <> None.
+Proof. cbv zeta. apply no_dangling_db. apply xrun_no_dangling. apply no_dangling_empty. Qed.
+Print Assumptions ext_no_dangling_tag.
+
+(* no command touches a declaration or a tag of another product or of another flavor *)
+Theorem ext_frame e x o x' :
+  xstep e x o = Ok x' ->
+  forall s n k f, (n, f) <> xop_nf o ->
+  db_decl (xd x') s n k f = db_decl (xd x) s n k f /\ db_tag (xd x') s n k f = db_tag (xd x) s n k f.
+Proof. apply xframe_nf. Qed.
+Print Assumptions ext_frame.
+
+(* a declaration writes copies below its own directory ups_db/<flavor>/<product>/<version> of the
+   target stack only; the copies kept with every other declaration are as before *)
+Theorem ext_frame_files e x o n v dir tb t ext x' :
+  xstep e x (XDeclare o n v dir tb t ext) = Ok x' ->
+  o_noaction o = true /\ xfiles x' = xfiles x \/
+  exists p, xdeclare_plan e (view (xd x)) (xfiles x) o n v dir tb t ext = Ok p /\
+    forall q, starts_with (extra_dir (dp_target (xp_plan p)) (o_flavor o) n v ++ slash) q = false ->
+              alookup q (xfiles x') = alookup q (xfiles x).
+Proof. apply xdeclare_frame_files. Qed.
+Print Assumptions ext_frame_files.
+
+(* the code as it is: undeclare, remove and the tag commands leave every copy where it is *)
+Theorem ext_other_commands_keep_files e x y x' : xstep e x (XOld y) = Ok x' -> xfiles x' = xfiles x.
+Proof. apply xold_keeps_files. Qed.
+Print Assumptions ext_other_commands_keep_files.
+
+(* what the table argument is recorded as *)
+Definition table_named (xf' : amap str) (tg f n v d : str) (tb : tspec) (tname : str) : Prop :=
+  match tb with
+  | TNone => tname = none_s
+  | TDefault => tname = default_table d n
+  | TPath p => is_subpath p (extra_dir tg f n v) = false -> tname = p
+  | TStream text => tname = interned_table tg f n v /\ alookup tname xf' = Some (intern_text text)
+  end.
+
+(* declared is found, for the extended declaration: a new or a FORCED declaration with an explicit
+   directory is found in the target stack with that directory and with the table file it was given --
+   the path, none, the default table, or the copy of the stream, whose text is there -- whatever was
+   declared before, in particular when only the table path changed and the text did not *)
+Theorem ext_declared_is_found e x o n v d tb t ext x' :
+  o_noaction o = false ->
+  (tspec_given tb = true \/ t = None) ->
+  xstep e x (XDeclare o n v (Some d) tb t ext) = Ok x' ->
+  exists rd tg tname,
+    xtarget e (map fst (xd x)) o d = Ok (rd, tg) /\
+    ((o_force o = true \/ db_decl (xd x) rd n v (o_flavor o) = None) ->
+     db_decl (xd x') tg n v (o_flavor o) = Some (d, tname) /\
+     table_named (xfiles x') tg (o_flavor o) n v d tb tname).
+Proof.
+  intros Hn Hg H. destruct (xdeclare_step _ _ _ _ _ _ _ _ _ _ Hn H) as [p [Hp [Hf Hd]]].
+  destruct (xdeclare_plan_inv _ _ _ _ _ _ _ _ _ _ _ Hp)
+    as [d' [tb1 [rd [tg [tname [full [tc [ec [Ht [Hrt [Hre [Hdir [Htb [Hpd [Hpt [Hpg [_ [Hc [_ [_ [Hw _]]]]]]]]]]]]]]]]]]]]].
+  pose proof (Hdir d eq_refl) as ->. rewrite (Htb Hg) in Hrt. rewrite apath_view in Ht.
+  exists rd, tg, tname. split; [exact Ht|]. intro Hc0. rewrite <- a_decl_view in Hc0.
+  split.
+  - rewrite Hd, (Hw Hc0), Hpd, Hpt, Hpg, dkey_eqb_refl. reflexivity.
+  - unfold table_named. destruct tb as [|p0| |text]; cbn [resolve_table] in Hrt.
+    + destruct (is_some _); inversion Hrt. reflexivity.
+    + intro Hs. rewrite Hs in Hrt. destruct (is_some _); inversion Hrt. reflexivity.
+    + inversion Hrt. reflexivity.
+    + inversion Hrt. subst tname full tc. split; [reflexivity|].
+      rewrite Hf, Hc, map_app. cbn [map fst snd].
+      unfold interned_table.
+      match goal with |- alookup ?k (write_files (?cs ++ [(?k', ?tx)]) ?xf) = _ => change k with k' end.
+      apply write_files_last.
+Qed.
+Print Assumptions ext_declared_is_found.
+
+(* without force the record of a version that is declared never changes: the request is either no
+   difference (the same directory, the same table text under whatever path, the same copies), or only
+   the tag is declared, or it is refused *)
+Theorem ext_unforced_redeclaration_keeps_record e x o n v d tb t ext x' rd tg :
+  o_noaction o = false -> o_force o = false ->
+  xtarget e (map fst (xd x)) o d = Ok (rd, tg) ->
+  db_decl (xd x) rd n v (o_flavor o) <> None ->
+  xstep e x (XDeclare o n v (Some d) tb t ext) = Ok x' ->
+  forall s n' v' f', db_decl (xd x') s n' v' f' = db_decl (xd x) s n' v' f'.
+Proof.
+  intros Hn Hf Hx Hr H s n' v' f'. destruct (xdeclare_step _ _ _ _ _ _ _ _ _ _ Hn H) as [p [Hp [_ Hd]]].
+  destruct (xdeclare_plan_inv _ _ _ _ _ _ _ _ _ _ _ Hp)
+    as [d' [tb1 [rd' [tg' [tname [full [tc [ec [Ht [Hrt [Hre [Hdir [Htb [Hpd [Hpt [Hpg [_ [Hc [Hrd [_ [_ Hw]]]]]]]]]]]]]]]]]]]]].
+  pose proof (Hdir d eq_refl) as ->. rewrite apath_view, Hx in Ht. inversion Ht. subst rd' tg'.
+  rewrite <- a_decl_view in Hr. rewrite Hd, (Hw Hf Hr). reflexivity.
+Qed.
+Print Assumptions ext_unforced_redeclaration_keeps_record.
+
+(* where a declaration goes *)
+Theorem ext_declare_goes_to_home_stack e path o d h :
+  o_stack o = None -> home_stack path d = Some h -> mem_str h (e_ro e) = false ->
+  xtarget e path o d = Ok (h, h).
+Proof. intros H1 H2 H3. unfold xtarget. rewrite H1, H2, H3. reflexivity. Qed.
+Print Assumptions ext_declare_goes_to_home_stack.
+
+Theorem ext_declare_goes_to_first_writable e path o d w :
+  o_stack o = None -> home_stack path d = None -> first_writable (e_ro e) path = Some w ->
+  xtarget e path o d = Ok (w, w) /\ In w path /\ mem_str w (e_ro e) = false.
+Proof.
+  intros H1 H2 H3. split; [unfold xtarget; rewrite H1, H2, H3; reflexivity|]. apply (first_writable_In _ _ _ H3).
+Qed.
+Print Assumptions ext_declare_goes_to_first_writable.
+
+(* whatever the request, the record is written to a stack of the path that is not read-only *)
+Theorem ext_declare_target_is_writable e x o n v dir tb t ext p :
+  xdeclare_plan e (view (xd x)) (xfiles x) o n v dir tb t ext = Ok p ->
+  has_stack (xd x) (dp_target (xp_plan p)) = true /\ mem_str (dp_target (xp_plan p)) (e_ro e) = false.
+Proof.
+  intro Hp. destruct (xdeclare_plan_inv _ _ _ _ _ _ _ _ _ _ _ Hp)
+    as [d' [tb1 [rd [tg [tname [full [tc [ec [Ht [_ [_ [_ [_ [_ [_ [Hpg _]]]]]]]]]]]]]]]].
+  rewrite Hpg. destruct (xtarget_sound _ _ _ _ _ _ Ht) as [H1 [H2 _]].
+  split; [apply view_target_has_stack; exact H1|exact H2].
+Qed.
+Print Assumptions ext_declare_target_is_writable.
+
+(* -Z naming a read-only stack: refused, nothing changes *)
+Theorem ext_declare_into_readonly_refused e x o n v d tb t ext s :
+  o_stack o = Some s -> mem_str s (e_ro e) = true ->
+  xstep e x (XDeclare o n v (Some d) tb t ext) = Err Refused /\
+  xstep_total e x (XDeclare o n v (Some d) tb t ext) = x.
+Proof.
+  intros H1 H2.
+  assert (E : xstep e x (XDeclare o n v (Some d) tb t ext) = Err Refused).
+  { unfold xstep. cbn [xdecide]. unfold xdeclare_plan. cbv zeta. unfold xtarget. rewrite H1, H2. reflexivity. }
+  split; [exact E|apply (xstep_total_err _ _ _ _ E)].
+Qed.
+Print Assumptions ext_declare_into_readonly_refused.
+
+(* a command that raises has changed nothing, records and copies *)
+Theorem ext_refused_changes_nothing e x o k : xstep e x o = Err k -> xstep_total e x o = x.
+Proof. apply xstep_total_err. Qed.
+Print Assumptions ext_refused_changes_nothing.
+
+(* the hypotheses are inhabited: a stream declared into the second stack by home-stack inference with
+   the first stack read-only, redeclared by force with tablefile none, the copy stays *)
+Definition ex_env : env :=
+  mkEnv [s1] [(lit "/prod/a1/ups/a.table", lit "# a"); (lit "/s2/prod/a1/ups/a.table", lit "# a")].
+Definition ex_xhistory : list xop :=
+  [ XDeclare o_any (lit "a") (lit "1") (Some (lit "/s2/prod/a1")) (TStream (lit "# l1" ++ ["010"%char] ++ lit "# l2")) None [];
+    XDeclare (mkOpts linux None true false) (lit "a") (lit "1") (Some (lit "/s2/prod/a1")) TNone None [];
+    XDeclare (mkOpts linux None false false) (lit "a") (lit "1") (Some (lit "/s2/prod/a1")) TDefault None [] ].
+
+(* the table kept with the generic declaration, named again when only a tag is declared under a flavor
+   that falls back on generic: the new declaration names that very file (before the repair it named
+   ups_db/Linux64/a/1/ups/a.table, which does not exist) *)
+Example ex_interned_table_of_fallback_flavor :
+  let og := mkOpts generic (Some s1) false false in
+  let x := xrun (mkEnv [] []) (xempty [s1; s2])
+             [ XDeclare og (lit "a") (lit "1") (Some (lit "/prod/a1")) (TStream (lit "# g")) None [];
+               XDeclare (o_in s1) (lit "a") (lit "1") None TDefault (Some (lit "beta")) [] ] in
+  db_decl (xd x) s1 (lit "a") (lit "1") linux = Some (lit "/prod/a1", lit "/s1/ups_db/generic/a/1/ups/a.table") /\
+  alookup (lit "/s1/ups_db/generic/a/1/ups/a.table") (xfiles x) = Some (lit "# g ").
+Proof. vm_compute. auto. Qed.
+
+Example ex_xstate :
+  let x := xrun ex_env (xempty [s1; s2]) (firstn 2 ex_xhistory) in
+  adecls (view (xd x)) = [ ((s2, lit "a", lit "1", linux), (lit "/s2/prod/a1", lit "none")) ] /\
+  xfiles x = [ (lit "/s2/ups_db/Linux64/a/1/ups/a.table", lit "# l1" ++ ["010"%char; " "%char] ++ lit "# l2 ") ] /\
+  xstep ex_env x (nth 2 ex_xhistory (XOld (Remove o_any [] []))) = Err Refused /\
+  xstep ex_env x (XDeclare (o_in s1) (lit "a") (lit "2") (Some (lit "/prod/a1")) TDefault None []) = Err Refused.
+Proof. vm_compute. auto. Qed.
